@@ -2,13 +2,25 @@
 """Generates harness/src/catalogue.rs: a catalogue of concrete Rust types through which the
 generic Marshal/Unmarshal/Signature impls of rustbus are instantiated (DESIGN.md section 3).
 A catalogue type is named by its extended signature: D-Bus signature characters, with a variant
-written v[<inner>] because the typed API needs the inner type statically.
-Run: python3 gen/catalogue.py   (deterministic; the output is committed)."""
+written v[<inner>] because the typed API needs the inner type statically, and with FLAVOUR markers (upper
+case letters, never D-Bus type codes) that select another RUST type for the same D-Bus type - the D-Bus
+signature, the model type and the value tokens are those of the unmarked name (lib/wiregen.parse_ext and
+ocaml/wire/driver.ml parse_ety drop the markers):
+  D  raw f64 (the element type with the `valid_slice` memcpy path; `d` is the wrapper F64 = general path)
+  S  String written through &str and read through <&str as Unmarshal>      O  ObjectPath<&str>      G  SignatureWrapper<&str>
+  aC<e>  read through Cow<[E]>, written through &[E]          aR<e>  written through <&[E] as Marshal> directly
+  aN<e>  written through [E; N] (N = 0..5, 8; other lengths through the unsized [E]), read through Vec<E>
+  aBy    written through &[u8], read through <&[u8] as Unmarshal> (Cursor::read_u8_slice)
+Types that can only be marshalled (5-tuples: the crate has no Unmarshal impl) are a separate list,
+gen/catalogue_m.txt / MARSHAL_ONLY / dispatch_m.
+Run: python3 gen/catalogue.py   (deterministic; the output is committed). Then run python3 gen/c04_dispatch.py."""
 import itertools, os
 
 BASE = {"y": "u8", "b": "bool", "n": "i16", "q": "u16", "i": "i32", "u": "u32", "x": "i64", "t": "u64",
-        "d": "F64", "h": "Fd", "s": "String", "o": "Path", "g": "Sig"}
-KEYS = "ybnqiuxtso"          # hashable key types available in Rust (f64, UnixFd, SignatureWrapper are not Hash)
+        "d": "F64", "h": "Fd", "s": "String", "o": "Path", "g": "Sig",
+        "D": "f64", "S": "BStr", "O": "BPath", "G": "BSig"}
+KEYS = "ybnqiuxtsoSO"        # hashable key types available in Rust (f64, UnixFd, SignatureWrapper are not Hash)
+ARRAY_FLAVOUR = {"C": "CowA", "R": "SliceR", "N": "ArrN"}
 
 
 def rust(t):
@@ -28,6 +40,12 @@ def parse(s):
             v, rest = parse(s[3:])
             assert rest[0] == "}"
             return "HashMap<%s, %s>" % (k, v), rest[1:]
+        if s[1] == "B":
+            assert s[2] == "y", s
+            return "BBytes", s[3:]
+        if s[1] in ARRAY_FLAVOUR:
+            e, rest = parse(s[2:])
+            return "%s<%s>" % (ARRAY_FLAVOUR[s[1]], e), rest
         e, rest = parse(s[1:])
         return "Vec<%s>" % e, rest
     if c == "(":
@@ -86,7 +104,8 @@ def catalogue():
                 out.append("(%s%s)" % (x, y))
             out.append("(y%s%s)" % (x, y) if k % 3 else "(%s%sy)" % (x, y))
             out.append("(yy%s%s)" % (x, y) if k % 2 else "(y%s%sq)" % (x, y))
-    out += ["(sysy)", "(ayqay)", "(tsyq)", "(yqsy)", "(gsyy)", "(ysgy)"]
+    out += ["(sysy)", "(ayqay)", "(tsyq)", "(yqsy)", "(gsyy)", "(ysgy)", "a(tt)", "a{ss}"]
+    out += flavoured()
     # drop ones our wrapper set cannot express, dedupe, keep order
     seen, res = set(), []
     for t in out:
@@ -100,6 +119,46 @@ def catalogue():
             seen.add(t)
             res.append(t)
     return res
+
+
+def flavoured():
+    """the Rust impls that the plain names (array = Vec<_>, d = wrapper, s = String) never instantiate; every one
+    occurs at least once next to a member whose alignment differs, inside each other container kind"""
+    out = []
+    # raw f64: Vec<f64> / [f64] take the valid_slice memcpy path in the native byte order only
+    out += ["D", "aD", "aaD", "(yD)", "(DyD)", "a(yD)", "a{sD}", "v[D]", "v[aD]", "(yaD)", "a{yaD}", "(aDy)"]
+    # Cow<[E]>: fast path for the fixed-width element types (borrowed when the memory is aligned), general path otherwise
+    out += ["aC" + e for e in ["y", "n", "q", "i", "u", "x", "t", "D", "d", "b", "s", "o", "(yt)", "at", "aCt", "v[t]", "a{sy}"]]
+    out += ["aaCt", "(yaCt)", "(yaCq)", "(aCqy)", "(yaCDy)", "a{saCt}", "a{yaCn}", "v[aCt]", "v[aCy]", "a(yaCn)", "(aCyaCt)", "aaCq"]
+    # [E; N] / [E] marshal entry points and the Signature impls of [E; N], [E]
+    out += ["aN" + e for e in ["y", "q", "t", "D", "s", "b", "(yt)", "aNt", "aNs", "v[y]", "a{us}"]]
+    out += ["(yaNt)", "(yaNq)", "(aNyq)", "a{saNy}", "v[aNu]", "a(yaNq)", "aaNt"]
+    # <&[E] as Marshal> called directly and the Signature impl of &[E]
+    out += ["aR" + e for e in ["y", "q", "t", "D", "s", "(yt)", "aRt", "v[s]"]]
+    out += ["(yaRt)", "(aRqy)", "a{saRt}", "v[aRq]"]
+    # <&[u8] as Unmarshal> (Cursor::read_u8_slice)
+    out += ["aBy", "(yaBy)", "(aByy)", "(taBy)", "(yaByq)", "(aByt)", "aaBy", "a{saBy}", "v[aBy]", "a(aByn)"]
+    # <&str as Unmarshal>, ObjectPath<&str>, SignatureWrapper<&str>
+    out += ["S", "aS", "(yS)", "(Sy)", "(ySq)", "(SyS)", "a{St}", "a{sS}", "a{SS}", "v[S]", "aaS", "a(Sy)", "aCS", "aNS"]
+    out += ["O", "G", "aO", "aG", "(yO)", "(Gy)", "(yGq)", "(Oyt)", "a{sO}", "a{Oy}", "a{sG}", "v[O]", "v[G]", "a(Gy)"]
+    return out
+
+
+def marshal_only():
+    """types with a Marshal but no Unmarshal impl: the 5-tuple (and containers of it)"""
+    out = ["(nqiux)", "(yqsyt)", "(ytyty)", "(sysys)", "(tyyyq)", "(ayqayyt)", "(ysgyD)", "(yv[y]tyv[s])", "(bhysh)", "(yyyyy)",
+           "a(yqsyt)", "(y(yqsyt))", "((ytyty)y)", "v[(ybqut)]", "a{s(yqiut)}", "aN(ysysy)", "aR(tyqyt)"]
+    for t in out:
+        rust(t)
+        assert all(len(split_struct(x)) <= 5 for x in structs(t)) and any(len(split_struct(x)) == 5 for x in structs(t)), t
+    return out
+
+
+def deep():
+    """legal types nested up to the limits (32 arrays, 32 structs in a signature; 64 containers in a message). They are
+    dispatched by catalogue.rs but kept out of catalogue.txt: only the big streams of C01/C02/C03 use them."""
+    return ["a" * 32 + "t", "(" * 32 + "t" + ")" * 32, "a(" * 32 + "y" + ")" * 32, "v[" * 64 + "y" + "]" * 64,
+            "v[" * 62 + "a(y)" + "]" * 62, "a{s" * 20 + "y" + "}" * 20, "aC" * 16 + "aN" * 16 + "t", "(y" * 31 + "(yt)" + ")" * 31]
 
 
 def structs(t):
@@ -127,6 +186,8 @@ def split_struct(body):
 
 def main():
     cat = catalogue()
+    mo = marshal_only()
+    assert not set(mo) & set(cat)
     here = os.path.dirname(os.path.dirname(os.path.abspath(__file__)))
     lines = ["// GENERATED by gen/catalogue.py - do not edit", "#![allow(clippy::all)]",
              "use crate::wirelib::*;", "use std::collections::HashMap;", "",
@@ -139,12 +200,37 @@ def main():
     lines.append("    match ty {")
     for t in cat:
         lines.append('        "%s" => run::<%s>(op, args),' % (t, rust(t)))
+    lines.append('        _ => dispatch_m(ty, op, args),')
+    lines.append("    }")
+    lines.append("}")
+    lines.append("")
+    lines.append("/// types with a Marshal impl only (5-tuples): MT, and RT up to the marshalled body (see wirelib::run_m)")
+    lines.append("pub const MARSHAL_ONLY: &[&str] = &[")
+    for t in mo:
+        lines.append('    "%s",' % t)
+    lines.append("];")
+    lines.append("")
+    lines.append("pub fn dispatch_m(ty: &str, op: &str, args: &mut Args) -> String {")
+    lines.append("    match ty {")
+    for t in mo:
+        lines.append('        "%s" => run_m::<%s>(op, args),' % (t, rust(t)))
+    lines.append('        _ => dispatch_deep(ty, op, args),')
+    lines.append("    }")
+    lines.append("}")
+    lines.append("")
+    lines.append("/// legal types nested up to the limits; not part of CATALOGUE (gen/catalogue_deep.txt)")
+    lines.append("pub fn dispatch_deep(ty: &str, op: &str, args: &mut Args) -> String {")
+    lines.append("    match ty {")
+    for t in deep():
+        lines.append('        "%s" => run::<%s>(op, args),' % (t, rust(t)))
     lines.append('        _ => "NOTYPE".to_string(),')
     lines.append("    }")
     lines.append("}")
+    open(os.path.join(here, "gen", "catalogue_deep.txt"), "w").write("\n".join(deep()) + "\n")
+    open(os.path.join(here, "gen", "catalogue_m.txt"), "w").write("\n".join(mo) + "\n")
     open(os.path.join(here, "harness", "src", "catalogue.rs"), "w").write("\n".join(lines) + "\n")
     open(os.path.join(here, "gen", "catalogue.txt"), "w").write("\n".join(cat) + "\n")
-    print(len(cat), "catalogue types")
+    print(len(cat), "catalogue types,", len(mo), "marshal-only types")
 
 
 if __name__ == "__main__":
